@@ -23,6 +23,8 @@ FatalTags == {"C00.panic", "C00.hang", "C00.mount", "C01.result", "C01.tree_afte
 \*  was; the program goes on, so that what the damaged medium does to later calls is still judged)
 SubSeqStr(t, pfx) == t \in FatalTags
 Get(e, k, dflt) == IF k \in DOMAIN e THEN e[k] ELSE dflt
+\* a byte sequence without its trailing spaces (volume_label_as_bytes)
+RTrimSp(b) == LET keep == {i \in 1..Len(b) : b[i] # 32} IN IF keep = {} THEN <<>> ELSE SubSeq(b, 1, CHOOSE i \in keep : \A j \in keep : j <= i)
 Tag(t, ok) == IF ok THEN {} ELSE {t}
 
 MutatingOps == {"create_file", "create_dir", "remove", "rename", "write", "write_all", "truncate", "flush", "close",
@@ -407,6 +409,17 @@ Step(s, e) ==
                                            \* (a FAT32 volume whose advisory FSInfo count was already wrong when it was mounted is out of scope:
                                            \*  the library documents that it reports that count)
                                            ELSE Tag("C05.stats", (s.fiTrust => e.r.free = FreeCount(Dp.F)) /\ e.r.total = post.g.n /\ e.r.cs = post.g.cs)]
+               \* volume information: FAT width, cluster size, volume id and label of the boot sector, and the label entry of the root
+               \* directory (the first short slot with the volume attribute; builder volumes carry at most one)
+               [] e.op = "info" ->
+                    LET rks == {k \in 1..Len(post.dirs) : post.dirs[k].par = -1}
+                        root == IF rks # {} THEN post.dirs[CHOOSE k \in rks : TRUE].sl ELSE <<>>
+                        labs == SelectSeq(root, LAMBDA x : x.t = "S" /\ (x.at \div 8) % 2 = 1 /\ (x.at \div 16) % 2 = 0)
+                    IN [m |-> s.m, ooc |-> FALSE,
+                        v |-> IF e.r.k # "ok" THEN {"C08.info"}
+                              ELSE Tag("C08.info", e.r.ft = post.g.ft /\ e.r.cs = post.g.cs /\ e.r.label = RTrimSp(post.g.lab) /\ e.r.vid = post.g.vid
+                                                   /\ (Len(labs) = 0 => e.r.rlabel = <<>>)
+                                                   /\ (Len(labs) = 1 => e.r.rlabel = labs[1].n))]
                [] OTHER -> [m |-> s.m, v |-> {}, ooc |-> FALSE]
    IN
    IF os.ooc THEN [s |-> [s EXCEPT !.dead = TRUE], v |-> {}, dev |-> {}, note |-> {"OOC"}]
